@@ -210,7 +210,11 @@ func genInboxF(r *rng, ty string, k int, focus bool) *scenario {
 	case "Accept", "Reject":
 		fid := fmt.Sprintf("%s/follows/%d", local, k)
 		follow := jmap{"@context": asCtx, "type": "Follow", "id": fid, "actor": alice, "object": sender}
-		switch r.intn(6) {
+		sel := r.intn(9)
+		if focus {
+			sel = k % 9
+		}
+		switch sel {
 		case 0: // stored, correct
 			w.Store[fid] = follow
 		case 1: // absent
@@ -230,6 +234,18 @@ func genInboxF(r *rng, ty string, k int, focus bool) *scenario {
 			f3 := deepCopy(follow)
 			f3["object"] = []interface{}{sender, actorID(remote, "erin")}
 			w.Store[fid] = f3
+		case 6, 8: // one accepting actor was followed, the other never was
+			w.Store[fid] = follow
+			if sel == 6 {
+				act["actor"] = []interface{}{sender, actorID(remote, "zed")}
+			} else {
+				act["actor"] = []interface{}{actorID(remote, "zed"), sender}
+			}
+		case 7: // the stored follow names one actor twice; a second, never followed actor accepts too
+			f4 := deepCopy(follow)
+			f4["object"] = []interface{}{sender, sender}
+			w.Store[fid] = f4
+			act["actor"] = []interface{}{sender, actorID(remote, "zed")}
 		}
 		w.Owned[fid] = true
 		if r.chance(1, 2) {
@@ -322,6 +338,88 @@ func genInboxF(r *rng, ty string, k int, focus bool) *scenario {
 	sc := inboxScenario("inbox:"+ty, w, cfg, act)
 	sc.Tags[ty] = true
 	return sc
+}
+
+// ---- structural variants -------------------------------------------------------------------------------
+// One member of an otherwise valid request made absent / null / empty / doubled / a plain string / an embedded value
+// without id: the glue around the modelled core (which property is required, what an empty list means, who is asked first).
+var shapeProps = []string{"actor", "object", "target", "to", "cc", "bto", "bcc", "audience", "id", "type", "inReplyTo", "attributedTo", "origin"}
+var shapeEdits = []string{"absent", "empty", "double", "string", "noid"} // a JSON null for a known property is not modelled (pub model: nulls dropped on decoding)
+
+func genShape(r *rng, reps int) []*scenario {
+	var out []*scenario
+	k := 5000
+	for rep := 0; rep < reps; rep++ {
+		for _, side := range []string{"inbox", "outbox"} {
+			types := inboxTypes
+			if side == "outbox" {
+				types = outboxTypes
+			}
+			for _, ty := range types {
+				if ty == "CreateBig" {
+					continue
+				}
+				k++
+				var base *scenario
+				if side == "inbox" {
+					base = genInboxF(r, ty, k, true)
+				} else {
+					base = genOutbox(r, ty, k)
+				}
+				src, useSend := base.Body, false
+				if src == nil {
+					src, useSend = base.Send, true
+				}
+				if src == nil {
+					continue
+				}
+				for _, p := range shapeProps {
+					v, has := src[p]
+					for _, e := range shapeEdits {
+						if !has && e != "empty" && e != "noid" {
+							continue
+						}
+						if p == "type" && (useSend || e == "double" || e == "noid") {
+							continue // Send needs a decodable value; arrays of types are not modelled
+						}
+						if !has && !(p == "object" || p == "target" || p == "actor") {
+							continue
+						}
+						body := deepCopy(src)
+						switch e {
+						case "absent":
+							delete(body, p)
+						case "null":
+							body[p] = nil
+						case "empty":
+							body[p] = []interface{}{}
+						case "double":
+							if l, ok := v.([]interface{}); ok && len(l) > 0 {
+								body[p] = append(append([]interface{}{}, l...), l[0])
+							} else {
+								body[p] = []interface{}{v, v}
+							}
+						case "string":
+							body[p] = "not an iri"
+						case "noid":
+							body[p] = jmap{"type": "Note", "content": "no id"}
+						}
+						sc := *base
+						if useSend {
+							sc.Send = body
+						} else {
+							sc.Body = body
+						}
+						sc.Family = "shape:" + side + ":" + ty
+						sc.Note = p + " " + e
+						sc.Tags = map[string]bool{}
+						out = append(out, &sc)
+					}
+				}
+			}
+		}
+	}
+	return out
 }
 
 // ---- client (outbox) posts -------------------------------------------------------------------------------
@@ -519,6 +617,11 @@ func genOutbox(r *rng, ty string, k int) *scenario {
 	if r.chance(1, 12) && ty != "Note" {
 		delete(body, "object")
 	}
+	if r.chance(1, 10) { // the sending actor's stored document has no inbox: the delivery must fail, not go out unstripped
+		a := deepCopy(w.Store[alice])
+		delete(a, "inbox")
+		w.Store[alice] = a
+	}
 	sc := outboxScenario("outbox:"+ty, w, cfg, body)
 	sc.Tags[ty] = true
 	if ty == "CreateBig" {
@@ -532,6 +635,69 @@ func genOutbox(r *rng, ty string, k int) *scenario {
 		if !cfg.Federating {
 			sc.Cfg.Federating = true
 		}
+	}
+	return sc
+}
+
+// ---- hidden recipients (C03), stratified ----------------------------------------------------------------------
+// Both protocols on; bto / bcc on the activity only, on an embedded object only, on both, on the second object only; the hidden
+// recipients are addressed nowhere else, so whether they are resolved for delivery shows.
+func genHidden(r *rng, k int) *scenario {
+	w := baseWorld(r)
+	cfg := defaultCfg()
+	cfg.MaxDelivery = 1 + r.intn(4)
+	alice := actorID(local, "alice")
+	hid1, hid2 := actorID(remote, "carol"), actorID(remote, "dave")
+	note := func(i int) jmap { return jmap{"type": "Note", "content": fmt.Sprintf("hidden %d-%d", k, i)} }
+	hide := func(m jmap) {
+		m["bto"] = iriOrEmbedded(r, hid1)
+		if r.chance(1, 2) {
+			m["bcc"] = hid2
+		}
+	}
+	var body jmap
+	kind := k % 6
+	switch kind {
+	case 0: // bare object
+		body = note(0)
+		body["@context"] = asCtx
+		hide(body)
+	case 1, 2, 3, 4: // explicit Create
+		body = jmap{"@context": asCtx, "type": "Create", "actor": alice}
+		o0, o1 := note(0), note(1)
+		switch kind {
+		case 1:
+			hide(body)
+		case 2:
+			hide(o0)
+		case 3:
+			hide(body)
+			o0["bcc"] = hid2
+		case 4:
+			hide(o1)
+		}
+		if kind == 4 || r.chance(1, 3) {
+			body["object"] = []interface{}{o0, o1}
+		} else {
+			body["object"] = o0
+		}
+	default: // another activity type
+		body = jmap{"@context": asCtx, "type": pick(r, []string{"Like", "Follow", "Listen"}), "actor": alice, "object": actorID(remote, "erin")}
+		hide(body)
+	}
+	if r.chance(1, 2) {
+		body["to"] = actorID(remote, "erin")
+	}
+	if k%7 == 6 { // the sending actor's stored document has no inbox
+		a := deepCopy(w.Store[alice])
+		delete(a, "inbox")
+		w.Store[alice] = a
+	}
+	sc := outboxScenario("hidden:"+fmt.Sprint(kind), w, cfg, body)
+	if k%5 == 4 && kind != 0 {
+		sc.Entry = "send"
+		sc.Send = body
+		sc.Body = nil
 	}
 	return sc
 }
@@ -1078,6 +1244,16 @@ func genEffects(r *rng, ty string, k int) *scenario {
 		for i := 0; i < 1+r.intn(3); i++ {
 			targets = append(targets, pick(r, []string{local + "/cols/1", local + "/cols/2", local + "/cols/3", local + "/cols/4", remote + "/notes/9", remote + "/cols/9", local + "/notes/1"}))
 		}
+		switch k % 3 { // a target this server does not own before / between targets it owns
+		case 1:
+			t := fmt.Sprintf("%s/cols/%d", local, 1+k%4)
+			w.Owned[t] = true
+			targets = []interface{}{remote + "/cols/9", t}
+		case 2:
+			t1, t2 := fmt.Sprintf("%s/cols/%d", local, 1+k%4), fmt.Sprintf("%s/cols/%d", local, 1+(k+1)%4)
+			w.Owned[t1], w.Owned[t2] = true, true
+			targets = []interface{}{t1, remote + "/cols/9", t2}
+		}
 		body["object"] = one(objs)
 		body["target"] = one(targets)
 	case "Like":
@@ -1135,7 +1311,19 @@ func runForward(r *rng, k int) (scs []*scenario, ress []runResult) {
 	alice := actorID(local, "alice")
 	sender := pick(r, remoteActors[:3])
 	id := fmt.Sprintf("%s/activities/fwd-%d", remote, k)
+	if k%4 == 3 { // an id with a fragment: it is the whole id that was or was not seen
+		id = fmt.Sprintf("%s/users/carol#likes/%d", remote, k)
+		if k%8 == 7 { // ... and the fragment-less IRI is something else this server already stores
+			w.Store[remote+"/users/carol"] = jmap{"@context": asCtx, "type": "Person", "id": remote + "/users/carol"}
+		}
+	}
 	act := jmap{"@context": asCtx, "type": pick(r, []string{"Create", "Announce", "Like", "Travel", "Update"}), "id": id, "actor": sender}
+	if k%3 == 2 { // hidden recipients on a received activity are forwarded as received
+		act["bto"] = actorID(remote, "zed")
+		if r.chance(1, 2) {
+			act["bcc"] = []interface{}{actorID(remote, "erin"), actorID(remote, "zed")}
+		}
+	}
 	// a reply chain of depth 0..5: each level embedded or by IRI (dereferenced), ownership at a random level
 	depth := r.intn(6)
 	ownedAt := -1
